@@ -101,7 +101,13 @@ class SockDouble:
     def send(self, data):
         return self.script.send(bytes(data))
 
+    eof = False
+
     def recv(self, n):
+        if self.script.closed:
+            raise OSError(errno.EBADF, 'closed')
+        if self.eof:
+            return b''      # the peer has shut down its sending side (it may well go on reading)
         raise OSError(errno.EWOULDBLOCK, 'nothing to read')
 
     def shutdown(self, how):
@@ -143,6 +149,8 @@ class FdDouble:
 
 
 PAYLOADS = [b'abc', b'd', b'', b'efg']
+# File takes text as well: encoded size and character count differ
+PAYLOADS_TEXT = [b'abc', 'd\u00e9\u20ac', b'', 'f\u00fcg']
 
 
 def make_harness(kind, n_ops, max_faulty):
@@ -271,16 +279,24 @@ def make_harness(kind, n_ops, max_faulty):
                 ops.append('close')
             if poller.isWriting(target) and not script.closed:
                 ops.append('writable')
+            if kind in ('server', 'client') and not close_requested and not script.closed:
+                ops.append('peer-eof')
             ops.append('stop')
             op = g.pick('op%d' % step, ops)
             history.append(op)
             if op == 'stop':
                 break
             if op == 'write':
-                data = PAYLOADS[n_payload]
+                data = (PAYLOADS_TEXT if kind == 'file' else PAYLOADS)[n_payload]
                 n_payload += 1
-                written += data
+                written += data if isinstance(data, bytes) else data.encode('utf-8')
                 do_write(data)
+            elif op == 'peer-eof':
+                # the peer half-closes: the endpoint reads end-of-file and closes, which like any close waits for the buffer
+                close_requested = True
+                written_before_close = len(written)
+                target.eof = True
+                root.fire(PL._read(target), ep.channel)
             elif op == 'close':
                 close_requested = True
                 written_before_close = len(written)
@@ -333,7 +349,7 @@ def make_harness(kind, n_ops, max_faulty):
     return harness
 
 
-ENC_S = [SK.Server.write, SK.Server._on_write, SK.Server._write, SK.Server.close, SK.Server._close]
+ENC_S = [SK.Server.write, SK.Server._on_write, SK.Server._write, SK.Server._read, SK.Server.close, SK.Server._close]
 ENC_C = [SK.Client.write, SK.Client._write, SK.Client.close, SK.Client._close]
 ENC_F = [FI.File.write, FI.File._write, FI.File.close, FI.File._close]
 
@@ -346,6 +362,8 @@ def canaries():
         ('server-close-does-not-wait', 'server', lambda: mutate(SK.Server, 'close', 'if not self._buffers.get(sock):', 'if True:'), ['bytes-lost', 'closed-before-buffer-written']),
         ('server-eintr-fatal-silent', 'server', lambda: mutate(SK.Server, '_write', 'if e.args[0] not in (EINTR, EWOULDBLOCK, ENOBUFS):', 'if e.args[0] not in (EWOULDBLOCK, ENOBUFS):'), ['bytes-lost', 'closed-without-request']),
         ('serverwide-close-does-not-wait', 'server', lambda: mutate(SK.Server, 'close', 'for sock in socks:\n        if not self._buffers.get(sock):\n            self._close(sock)', 'for client in socks:\n        if not self._buffers.get(sock):\n            self._close(client)\n            continue\n        sock = client\n        if False:\n            pass'), None),
+        ('server-eof-closes-at-once', 'server', lambda: mutate(SK.Server, '_read', 'else:\n            self.close(sock)', 'else:\n            self._close(sock)'), ['bytes-lost', 'closed-before-buffer-written']),
+        ('file-tail-counted-in-characters', 'file', lambda: mutate(FI.File, '_write', ['data = data.encode(self._encoding)', 'nbytes = fd_write(self._fd.fileno(), data)'], ['pass', "nbytes = fd_write(self._fd.fileno(), data if isinstance(data, bytes) else data.encode(self._encoding))"]), None),
         ('client-tail-dropped', 'client', lambda: mutate(SK.Client, '_write', 'self._buffer.appendleft(data[nbytes:])', 'pass'), ['bytes-lost']),
         ('file-writer-kept', 'file', lambda: mutate(FI.File, '_File__on_write', 'elif self._poller.isWriting(self._fd):', 'elif False:'), ['writer-interest-not-dropped', 'never-drains']),
     ]
